@@ -14,6 +14,8 @@ pub mod cat;
 pub mod model;
 #[cfg(feature = "c16")]
 pub mod tok;
+#[cfg(feature = "c16")]
+pub mod toksd;
 
 #[cfg(feature = "c00")]
 pub mod c00;
